@@ -13,7 +13,11 @@ suite `hist` (C10): histories of push / extend / serialize-through-Serializer / 
           operation's outcome class and every build's arrays (decoded content; physical equality is tagged);
   spec  : C10  build k decodes to exactly interp of the rows added since build k-1, in order (a 0-row build
                gives 0 rows), and is identical to the one-shot to_marrow of that batch;
-          C16  no panic.
+          C16  no panic;
+          C18  (API coverage) the public accessors of every error agree with its Display text (`accessorsDisagree`).
+API coverage: `ctor_used = new` means the builder came from `ArrayBuilder::new(SerdeArrowSchema)` (same model: the
+schema observably holds the given fields); `ser_owned` is `Serializer::new(builder)` by value + `into_inner()` (same
+model operation as `ser`); batches arrive in every shape the front ends accept and `not:*` shapes must be refused.
 -/
 namespace Driver.Suites.Hist
 open Lean Driver SaModel SaModel.Build SaModel.Spec Driver.Suites.Build
@@ -21,13 +25,35 @@ open Lean Driver SaModel SaModel.Build SaModel.Spec Driver.Suites.Build
 inductive HOp where
   | push (row : SVal)
   | extend (v : SVal) (rows : List SVal)
-  | ser (v : SVal) (rows : List SVal)
+  | ser (v : SVal) (rows : List SVal) (owned : Bool := false)
   | build
+  | userError (via text : String)   -- API coverage: an error made by the user of the crate (no model operation)
 
 def wrapRows (as_ : String) (rows : List SVal) : SVal :=
   match as_ with
   | "tuple" => .tuple (SVals.ofList rows)
   | "tuple_struct" => .tupleStruct "Batch" (SVals.ofList rows)
+  | "tuple_variant" => .tupleVariant "Batch" 1 "Rows" (SVals.ofList rows)
+  | "newtype_struct" => .newtypeStruct "Batch" (.seq (SVals.ofList rows))
+  | "newtype_variant" => .newtypeVariant "Batch" 0 "Rows" (.seq (SVals.ofList rows))
+  | "some" => .some (.seq (SVals.ofList rows))
+  | "not:i32" => .int .i32 7
+  | "not:bool" => .bool true
+  | "not:str" => .str "rows"
+  | "not:map" => .map .nil
+  | "not:struct" => .record "Batch" .nil
+  | "not:unit_variant" => .unitVariant "Batch" 0 "Rows"
+  | "not:none" => .none
+  | "not:some" => .some (.int .i32 7)
+  | "not:unit" => .unit
+  | "not:unit_struct" => .unitStruct "Batch"
+  | "not:bytes" => .bytes [0, 255]
+  | "not:char" => .char 97
+  | "not:f32" => .f32 0
+  | "not:f64" => .f64 0
+  | "not:i8" => .int .i8 7 | "not:i16" => .int .i16 7 | "not:i64" => .int .i64 7
+  | "not:u8" => .int .u8 7 | "not:u16" => .int .u16 7 | "not:u32" => .int .u32 7 | "not:u64" => .int .u64 7
+  | "not:struct_variant" => .structVariant "Batch" 0 "Rows" .nil
   | _ => .seq (SVals.ofList rows)
 
 def parseOp (j : Json) : Except String HOp := do
@@ -39,11 +65,16 @@ def parseOp (j : Json) : Except String HOp := do
   | "ser" =>
     let rows ← (← getArr j "rows").toList.mapM svalOfJson
     pure (.ser (wrapRows (← getStr j "as") rows) rows)
+  | "ser_owned" =>
+    let rows ← (← getArr j "rows").toList.mapM svalOfJson
+    pure (.ser (wrapRows (← getStr j "as") rows) rows true)
   | "build" => pure .build
+  | "user_error" => pure (.userError (← getStr j "via") (← getStr j "text"))
   | o => throw s!"unknown op {o}"
 
 def opName : HOp → String
-  | .push _ => "push" | .extend _ _ => "extend" | .ser _ _ => "ser" | .build => "build"
+  | .push _ => "push" | .extend _ _ => "extend" | .ser _ _ false => "ser" | .ser _ _ true => "ser_owned" | .build => "build"
+  | .userError via _ => s!"user_error:{via}"
 
 structure St where
   root : B
@@ -64,7 +95,8 @@ def handle (j : Json) : Except String Verdict := do
   let ctor ← getObj j "ctor"
   let impl := (← getArr j "impl").toList
   let oneshot := (← getArr j "oneshot").toList
-  let tags0 := (ops.map opName).eraseDups ++ (fields.flatMap schemaTags).eraseDups
+  let shapes := ((← getArr j "ops").toList.filterMap fun o => (getStr o "as").toOption.map (s!"as:{·}")).eraseDups
+  let tags0 := (ops.map opName).eraseDups ++ shapes ++ [s!"ctor:{(getStr j "ctor_used").toOption.getD "from_marrow"}"] ++ (fields.flatMap schemaTags).eraseDups
   let fsb0 := fields.any hasFsb0
   match newRoot fields with
   | .error _ =>
@@ -90,17 +122,45 @@ def handle (j : Json) : Except String Verdict := do
       let some io := impl[i]? | break
       let cls := implCls io
       if cls == "panic" || cls == "hang" then c16 := "fail"
+      -- an error of the user's making comes back as an error carrying the user's text: `serde::ser::Error::custom` /
+      -- `serde::de::Error::custom` prefix it with their trait's name, `Error::custom` / `custom_from` take it as it is
+      -- (only `custom_from` has a source); the accessor check below applies as to every error; the history ends here
+      if let .userError via text := op then
+        let err := (io.getObjVal? "err").toOption.getD Json.null
+        let want := match via with | "ser" => "serde::ser::Error: " ++ text | "de" => "serde::de::Error: " ++ text | _ => text
+        let acc := (err.getObjVal? "acc").toOption.getD Json.null
+        let hasSource := match acc.getObjVal? "source" with | .ok (.str _) => true | _ => false
+        let good := cls == "err" && (acc.getObjValAs? String "message").toOption == some want && hasSource == (via == "custom_from")
+          && (via == "ser" || annOfImpl err == [])
+        -- (`source`: that the cause is quoted at the end of the message is a convention of the crate's own conversions,
+        -- not of `custom_from`)
+        let accBad := match accessorsDisagree err with | some "source" => false | some _ => true | none => false
+        if !good || accBad then
+          c18 := "fail"
+          if sig == "" then
+            sig := s!"hist/C18/user-error/{via}"
+            why := s!"op #{i}: a user error {repr text} made through {via} came back as {io.compress}"
+        break
       let res : R (B × Option (List Arr)) := match op with
         | .push row => (push ext st.root row).map (·, none)
         | .extend v _ => (extend ext st.root v).map (·, none)
-        | .ser v _ => (serializeWith ext st.root v).map (·, none)
+        | .ser v _ _ => (serializeWith ext st.root v).map (·, none)
         | .build => (buildArrays ext st.root).map fun (arrs, rest) => (rest, some arrs)
+        | .userError _ _ => .ok (st.root, none)
       let batch' := match op with
         | .push row => st.batch ++ [row]
-        | .extend _ rows | .ser _ rows => st.batch ++ rows
-        | .build => st.batch
+        | .extend _ rows | .ser _ rows _ => st.batch ++ rows
+        | .build | .userError _ _ => st.batch
       -- an operation that fails must fail with the same annotations in model and implementation (C18: also after
       -- builds, when the builders have been reset), and the field must be a position Spec.blame allows
+      if cls == "err" then
+        match accessorsDisagree ((io.getObjVal? "err").toOption.getD Json.null) with
+        | some aspect =>
+          c18 := "fail"
+          if sig == "" then
+            sig := s!"hist/C18/error-accessors/{aspect}"
+            why := s!"op #{i} {opName op}: Error::message / Display / Debug disagree ({aspect}): {((io.getObjVal? "err").toOption.getD Json.null).compress}"
+        | none => pure ()
       if res.cls == "err" && cls == "err" then
         let ia := annOfImpl ((io.getObjVal? "err").toOption.getD Json.null)
         let ma := res.ann
@@ -111,8 +171,8 @@ def handle (j : Json) : Except String Verdict := do
             why := s!"op #{i} {opName op}: annotations: model {repr ma}, implementation {repr ia}"
         let newRows := match op with
           | .push row => [row]
-          | .extend _ rows | .ser _ rows => rows
-          | .build => []
+          | .extend _ rows | .ser _ rows _ => rows
+          | .build | .userError _ _ => []
         let firstBadRow := newRows.find? (fun r => !(interpRow ext fields r).isOk)
         match firstBadRow with
         | some row =>
